@@ -127,8 +127,8 @@ def access_tokens(rng, v, start, count, stride, memtok, k, flex, form=None, buf=
     if flex:
         if buf is None:
             b = rng.below(6)
-            if b < 3 or nel == 0:
-                buf = 'c %d' % nel
+            if b < 3 or nel <= 0:
+                buf = 'c %d' % max(nel, 0)
             elif b < 5:
                 # vector layout: split nel into count*blocklen
                 bl = rng.choice([d for d in range(1, nel + 1) if nel % d == 0])
